@@ -32,6 +32,17 @@ typedef coarsening::pointwise_aggregates PwAggr;
 static const long double U64 = 1.1102230246251565e-16L;   // unit roundoff of double
 static const long double UF = 5.9604644775390625e-08L;    // unit roundoff of float
 
+// One failure line per (case, key): exhaustive cases batch 512 patterns, and a defect that fires on most of them
+// must not flood the event log.  The first witness (pattern mask) and the number of occurrences are recorded.
+struct Chk {
+    Case &cs; std::string ctx; std::map<std::string, std::tuple<long, std::string, J, std::string>> f;
+    explicit Chk(Case &c_) : cs(c_) {}
+    bool check(bool ok, const std::string &key, const std::string &what, const J &detail = J()) {
+        ++cs.checks; if (!ok) { auto &e = f[key]; if (!std::get<0>(e)++) { std::get<1>(e) = what; std::get<2>(e) = detail; std::get<3>(e) = ctx; } } return ok; }
+    void nontrivial(long n = 1) { cs.nontrivial(n); }
+    ~Chk() { for (auto &kv : f) { J d = std::get<2>(kv.second); d.n("occurrences_in_case", std::get<0>(kv.second)); if (!std::get<3>(kv.second).empty()) d.s("first_witness", std::get<3>(kv.second)); cs.fail(kv.first, std::get<1>(kv.second), d); } }
+};
+
 static M to_amg(const Csr<double> &A) { return M(A.n, A.m, A.ptr, A.col, A.val); }
 
 // generator self-check: a harness bug must never look like a violation
@@ -66,7 +77,7 @@ static std::vector<char> ref_strong(const Csr<double> &A, float eps) {
 
 // Partition invariants of the property text, evaluated on the *returned* flags:
 //  aggregated <=> the row has a strong connection; ids in [0,count); every id used.
-static bool check_partition(Case &c, const Csr<double> &A, size_t count, const std::vector<char> &s, const std::vector<ptrdiff_t> &id, const std::string &comp) {
+static bool check_partition(Chk &c, const Csr<double> &A, size_t count, const std::vector<char> &s, const std::vector<ptrdiff_t> &id, const std::string &comp) {
     bool ok = true;
     ok &= c.check(s.size() == A.nnz() && id.size() == A.n, comp + ":sizes", "strong_connection / id have wrong length");
     if (!ok) return false;
@@ -100,7 +111,7 @@ static AggrOut run_pointwise(const Csr<double> &A, float eps, unsigned b, unsign
 
 // plain_aggregates against the documented predicate + partition invariants;
 // pointwise_aggregates(block_size 1) must be the same object.
-static AggrOut check_plain(Case &c, const Csr<double> &A, float eps, const std::string &tag) {
+static AggrOut check_plain(Chk &c, const Csr<double> &A, float eps, const std::string &tag) {
     std::vector<char> ref = ref_strong(A, eps);
     AggrOut o = run_plain(A, eps);
     bool any_definite = false, any_maybe = false; for (char r : ref) { if (r == 1) any_definite = true; if (r == 2) any_maybe = true; }
@@ -121,7 +132,7 @@ static AggrOut check_plain(Case &c, const Csr<double> &A, float eps, const std::
 // Lifting oracle for the aggregates: pointwise_aggregates(A (x) I_b, b) == lift(plain_aggregates(A)).
 // Precondition (checked by the callers' generators): positive diagonal -- the pointwise
 // reduction keeps one *norm* per block, so the sign of a_ii a_jj is not available to it.
-static void check_lift_aggr(Case &c, const Csr<double> &A, const AggrOut &pl, float eps, int b, const std::string &tag) {
+static void check_lift_aggr(Chk &c, const Csr<double> &A, const AggrOut &pl, float eps, int b, const std::string &tag) {
     Csr<double> Ab = vf::kron(A, vf::identity_block(b), b);
     require(Ab.nnz() == A.nnz() * b, "kron(A, I_b) entry count");
     AggrOut pw = run_pointwise(Ab, eps, b, 0);
@@ -163,7 +174,7 @@ static bool is_transpose(const M &P, const M &R) {
 struct NullSpace { int cols = 0; std::vector<double> Bm; std::string kind = "none"; };
 
 // returns 0 when the level is empty, 1 when P_tent was checked, -1 when an early check failed
-static int check_ptent(Case &c, const Csr<double> &A, float eps, int b, const NullSpace &ns, const std::string &tag,
+static int check_ptent(Chk &c, const Csr<double> &A, float eps, int b, const NullSpace &ns, const std::string &tag,
                         std::shared_ptr<M> *Pout = nullptr, AggrOut *agout = nullptr) {
     typedef coarsening::aggregation<B> Coarsening;
     M a = to_amg(A); Coarsening::params prm; prm.aggr.eps_strong = eps; prm.aggr.block_size = b; prm.nullspace.cols = ns.cols; prm.nullspace.B = ns.Bm;
@@ -239,7 +250,7 @@ static int check_ptent(Case &c, const Csr<double> &A, float eps, int b, const Nu
 // from the public non-smoothed coarsening with the same parameters.
 //---------------------------------------------------------------------------
 struct SaCfg { float eps = 0.08f; int b = 1; float relax = 1.0f; bool est = false; };
-static void check_sa(Case &c, const Csr<double> &A, const SaCfg &cfg, const NullSpace &ns, bool symmetric, const std::string &tag) {
+static void check_sa(Chk &c, const Csr<double> &A, const SaCfg &cfg, const NullSpace &ns, bool symmetric, const std::string &tag) {
     typedef coarsening::smoothed_aggregation<B> SA;
     std::shared_ptr<M> Pt; AggrOut ag;
     int have = check_ptent(c, A, cfg.eps, cfg.b, ns, tag, &Pt, &ag);
@@ -262,8 +273,8 @@ static void check_sa(Case &c, const Csr<double> &A, const SaCfg &cfg, const Null
     std::vector<long double> ref(P->ncols, 0.0L), acc(P->ncols, 0.0L); std::vector<char> seen(P->ncols, 0); std::vector<ptrdiff_t> touched;
     size_t maxrow = 0; for (size_t i = 0; i < A.n; ++i) maxrow = std::max<size_t>(maxrow, A.ptr[i + 1] - A.ptr[i]);
     for (size_t i = 0; i < A.n; ++i) {
-        long double dF = 0, rs = 0; bool strong_nb = false; size_t k = 0;
-        for (auto j = A.ptr[i]; j < A.ptr[i + 1]; ++j) { rs += A.val[j]; if (A.col[j] == (ptrdiff_t)i || !ag.s[j]) dF += A.val[j]; else strong_nb = true; }
+        long double dF = 0, dFabs = 0, rs = 0; bool strong_nb = false; size_t k = 0;
+        for (auto j = A.ptr[i]; j < A.ptr[i + 1]; ++j) { rs += A.val[j]; if (A.col[j] == (ptrdiff_t)i || !ag.s[j]) { dF += A.val[j]; dFabs += fabsl((long double)A.val[j]); } else if (A.col[j] / cfg.b != (ptrdiff_t)i / cfg.b) strong_nb = true; }   // a neighbour is another grid node
         if (dF == 0) continue;          // D^-1 does not exist: the documented formula says nothing about this row
         touched.clear();
         auto add = [&](ptrdiff_t col, long double v, long double av) { if (!seen[col]) { seen[col] = 1; touched.push_back(col); } ref[col] += v; acc[col] += av; ++k; };
@@ -271,8 +282,10 @@ static void check_sa(Case &c, const Csr<double> &A, const SaCfg &cfg, const Null
         for (auto &e : T.rows[i]) add(e.first, (1 - omega) * e.second, (1 + fabsl(omega)) * fabsl((long double)e.second));
         for (auto j = A.ptr[i]; j < A.ptr[i + 1]; ++j) { ptrdiff_t cc = A.col[j]; if (cc == (ptrdiff_t)i || !ag.s[j]) continue; long double w = -omega * A.val[j] / dF; for (auto &e : T.rows[cc]) add(e.first, w * e.second, fabsl(w * e.second)); }
         // forward bound of the row's sparse accumulation: (terms + row length + 6) u sum|terms|  (omega, filtered diagonal, 1/dF,
-        // products, sums); the Gershgorin radius adds the length of the longest row
-        long double fac = (k + A.ptr[i + 1] - A.ptr[i] + 6 + (cfg.est ? maxrow + 4 : 0)) * U64; long double psum = 0, accsum = 0;
+        // products, sums; kappa below); the Gershgorin radius adds the length of the longest row
+        // the filtered diagonal is a sum with cancellation: its relative error is (row length) u * sum|terms| / |sum|
+        long double kappa = dFabs / fabsl(dF);
+        long double fac = (k + (A.ptr[i + 1] - A.ptr[i]) * kappa + 6 + (cfg.est ? maxrow + 4 : 0)) * U64; long double psum = 0, accsum = 0;
         for (ptrdiff_t col : touched) accsum += acc[col];
         for (auto &e : S.rows[i]) { if (!std::isfinite(e.second)) finite = false; psum += e.second;
             long double r = ref[e.first], bd = fac * acc[e.first]; long double dlt = fabsl(e.second - r);
@@ -280,7 +293,8 @@ static void check_sa(Case &c, const Csr<double> &A, const SaCfg &cfg, const Null
         for (ptrdiff_t col : touched) { if (!S.rows[i].count(col) && !(fabsl(ref[col]) <= fac * acc[col])) value = false; }
         ++rows_checked;
         // row-sum clause: symmetric matrix, zero row sum (exact), strong neighbour, no null space given (constant)
-        if (symmetric && ns.cols == 0 && rs == 0 && strong_nb) { ++rs_checked; long double bd = fac * (accsum + 1); long double dl = fabsl(psum - 1); if (!(dl <= bd)) rowsum = false; worst_rs = std::max(worst_rs, (double)(dl / bd)); }
+        if (symmetric && ns.cols == 0 && rs == 0 && strong_nb) { ++rs_checked; long double bd = fac * (accsum + 1); long double dl = fabsl(psum - 1); if (!(dl <= bd)) { rowsum = false; if (vf::opt_int("debug", 0)) { fprintf(stderr, "SA row %zu id=%ld dF=%Lg: A:", i, (long)ag.id[i], dF); for (auto j = A.ptr[i]; j < A.ptr[i + 1]; ++j) fprintf(stderr, " (%ld %g s%d id%ld)", (long)A.col[j], A.val[j], (int)ag.s[j], (long)ag.id[A.col[j]]); fprintf(stderr, "\n  P:"); for (auto &e : S.rows[i]) fprintf(stderr, " (%ld %.17g)", (long)e.first, e.second); fprintf(stderr, " sum=%.17Lg\n", psum); } }
+            worst_rs = std::max(worst_rs, (double)(dl / bd)); }
         for (ptrdiff_t col : touched) { ref[col] = 0; acc[col] = 0; seen[col] = 0; }
     }
     c.check(finite, "smoothed_aggregation:non-finite" + tag, "P contains NaN/Inf");
@@ -298,25 +312,34 @@ static bool rs_admissible(const Csr<double> &A) {
     for (size_t i = 0; i < A.n; ++i) { bool off = false, neg = false; for (auto j = A.ptr[i]; j < A.ptr[i + 1]; ++j) if (A.col[j] != (ptrdiff_t)i) { off = true; if (A.val[j] < 0) neg = true; } if (off && !neg) return false; }
     return true;
 }
-static void check_rs(Case &c, const Csr<double> &A, float eps, bool trunc, float eps_trunc, const std::string &tag) {
+static void check_rs(Chk &c, const Csr<double> &A, float eps, bool trunc, float eps_trunc, const std::string &tag) {
     typedef coarsening::ruge_stuben<B> RS; M a = to_amg(A); RS::params prm; prm.eps_strong = eps; prm.do_trunc = trunc; prm.eps_trunc = eps_trunc;
     RS rs(prm); std::shared_ptr<M> P, R;
     try { std::tie(P, R) = rs.transfer_operators(a); } catch (const error::empty_level &) { return; }
     Sparse S = to_rows(*P);
     if (!c.check(S.wellformed && P->nrows == A.n, "ruge_stuben:malformed" + tag, "P is not a well-formed CRS matrix with n rows")) return;
     c.check(is_transpose(*P, *R), "ruge_stuben:R-not-transpose" + tag, "restriction is not the transpose of the prolongation");
-    bool rowsum = true, finite = true; double worst = 0; long rows = 0;
+    bool rowsum = true, rowsum_tie = true, finite = true; double worst = 0; long rows = 0;
     for (size_t i = 0; i < A.n; ++i) {
         long double rsum = 0; bool neg = false; for (auto j = A.ptr[i]; j < A.ptr[i + 1]; ++j) { rsum += A.val[j]; if (A.col[j] != (ptrdiff_t)i && A.val[j] < 0) neg = true; }
         long double ps = 0, pa = 0; for (auto &e : S.rows[i]) { if (!std::isfinite(e.second)) finite = false; ps += e.second; pa += fabsl((long double)e.second); }
         if (rsum != 0 || !neg) continue;
         // alpha, beta: sums of same-signed numbers, three quotients, one product per weight -> (4k + 16) u sum|p_ij|
         long double bd = (4 * (A.ptr[i + 1] - A.ptr[i]) + 16) * U64 * (pa + 1), dl = fabsl(ps - 1);
-        if (!(dl <= bd)) { rowsum = false; if (vf::opt_int("debug", 0)) { fprintf(stderr, "RS row %zu: A:", i); for (auto j = A.ptr[i]; j < A.ptr[i + 1]; ++j) fprintf(stderr, " (%ld %g)", (long)A.col[j], A.val[j]); fprintf(stderr, "\n  P:"); for (auto &e : S.rows[i]) fprintf(stderr, " (%ld %.17g)", (long)e.first, e.second); fprintf(stderr, " sum=%.17Lg\n", ps); } }
+        if (!(dl <= bd)) {
+            // classify the input row for the failure key: does it contain a coupling exactly at the truncation threshold
+            // (v == eps_trunc * largest same-signed coupling)?  Input classification only, nothing of the algorithm.
+            bool tie = false;
+            if (trunc) for (auto j = A.ptr[i]; j < A.ptr[i + 1]; ++j) for (auto q = A.ptr[i]; q < A.ptr[i + 1]; ++q)
+                if (j != q && A.col[j] != (ptrdiff_t)i && A.col[q] != (ptrdiff_t)i && A.val[q] == A.val[j] * eps_trunc) tie = true;
+            if (tie) rowsum_tie = false; else rowsum = false;
+            if (vf::opt_int("debug", 0)) { fprintf(stderr, "RS row %zu: A:", i); for (auto j = A.ptr[i]; j < A.ptr[i + 1]; ++j) fprintf(stderr, " (%ld %g)", (long)A.col[j], A.val[j]); fprintf(stderr, "\n  P:"); for (auto &e : S.rows[i]) fprintf(stderr, " (%ld %.17g)", (long)e.first, e.second); fprintf(stderr, " sum=%.17Lg\n", ps); }
+        }
         worst = std::max(worst, (double)(dl / bd)); ++rows;
     }
     c.check(finite, "ruge_stuben:non-finite" + tag, "P contains NaN/Inf");
     c.check(rowsum, "ruge_stuben:row-sum" + tag, "interpolation row of a zero-row-sum row with a strong neighbour does not sum to one", J().n("excess_over_bound", worst).bl("do_trunc", trunc).n("eps_trunc", eps_trunc).n("eps_strong", eps));
+    c.check(rowsum_tie, "ruge_stuben:row-sum:truncation-tie" + tag, "interpolation row does not sum to one; the row has a coupling exactly at the truncation threshold eps_trunc * largest", J().n("excess_over_bound", worst).n("eps_trunc", eps_trunc).n("eps_strong", eps));
     vf::obs_max("rs_rowsum_over_bound", worst); vf::obs_sum("rs_rowsum_rows", rows);
 }
 
@@ -343,13 +366,16 @@ static Csr<double> small_matrix(size_t n, uint64_t fullmask, int cls, uint64_t s
     }
     return A;
 }
+template <class C> static void lift_transfer(Chk &c, const std::string &name, const M &a, const M &ab, int b, float eps);
 static const float EPS_LIST[4] = {0.0f, 0.08f, 0.25f, 0.5f};
 static const char *CLS_NAME[3] = {"mmatrix", "mixed", "posoff"};
 
-static void one_small(Case &c, const Csr<double> &A, float eps, int cls, bool symmetric, uint64_t mask) {
+static void one_small(Chk &c, const Csr<double> &A, float eps, int cls, bool symmetric, uint64_t mask) {
     AggrOut pl = check_plain(c, A, eps, "");
     check_lift_aggr(c, A, pl, eps, 2, "");
     if (mask % 4 == 1) check_lift_aggr(c, A, pl, eps, 3, "");
+    if (mask % 2 == 0) { int b = 2 + (int)((mask >> 1) % 2); M a = to_amg(A); Csr<double> Ab = vf::kron(A, vf::identity_block(b), b); M ab = to_amg(Ab);
+        lift_transfer<coarsening::aggregation<B>>(c, "aggregation", a, ab, b, eps); lift_transfer<coarsening::smoothed_aggregation<B>>(c, "smoothed_aggregation", a, ab, b, eps); }
     NullSpace none; SaCfg cfg; cfg.eps = eps; cfg.relax = (mask % 3 == 0) ? 1.0f : (mask % 3 == 1 ? 0.75f : 1.5f); cfg.est = (mask % 2 == 1);
     check_sa(c, A, cfg, none, symmetric, "");
     if (mask % 8 == 3) {        // null space of dimension 1 / 2 on the tiny graphs: (1), (1, i)
@@ -364,12 +390,12 @@ static void sub_exhaustive(const std::string &sub, size_t n, bool symmetric) {
     uint64_t nmask = symmetric ? 1ULL << (n * (n - 1) / 2) : 1ULL << (n * (n - 1)); const uint64_t batch = 512; long idx = 0;
     for (int cls = 0; cls < 3; ++cls) for (int ie = 0; ie < 4; ++ie) for (uint64_t base = 0; base < nmask; base += batch, ++idx) {
         if (!vf::selected(sub, idx)) continue;
-        Case c(sub, idx, J().s("values", CLS_NAME[cls]).n("eps_strong", EPS_LIST[ie]).n("n", n).n("mask_from", base).n("masks", std::min(batch, nmask - base)));
+        Case cs(sub, idx, J().s("values", CLS_NAME[cls]).n("eps_strong", EPS_LIST[ie]).n("n", n).n("mask_from", base).n("masks", std::min(batch, nmask - base))); Chk c(cs);
         for (uint64_t m = base; m < std::min(nmask, base + batch); ++m) {
             uint64_t full = symmetric ? vf::sym_mask_to_full(n, m) : m;
             Csr<double> A = small_matrix(n, full, cls, m);
             if (symmetric) require(is_symmetric(A), "small_matrix symmetric");
-            one_small(c, A, EPS_LIST[ie], cls, symmetric, m);
+            c.ctx = "mask=" + std::to_string(m); one_small(c, A, EPS_LIST[ie], cls, symmetric, m);
             if (m) c.nontrivial();
         }
     }
@@ -426,7 +452,7 @@ static bool rows_bitwise_equal(const std::vector<std::map<ptrdiff_t, double>> &X
         for (; a != X[i].end(); ++a, ++b2) if (a->first != b2->first || memcmp(&a->second, &b2->second, sizeof(double))) { ++d; break; } }
     *ndiff = d; return d == 0;
 }
-template <class C> static void lift_transfer(Case &c, const std::string &name, const M &a, const M &ab, int b, float eps) {
+template <class C> static void lift_transfer(Chk &c, const std::string &name, const M &a, const M &ab, int b, float eps) {
     typename C::params p1, p2; p1.aggr.eps_strong = eps; p2.aggr.eps_strong = eps; p2.aggr.block_size = b;
     C c1(p1), c2(p2); std::shared_ptr<M> P1, R1, P2, R2; bool e1 = false, e2 = false;
     try { std::tie(P1, R1) = c1.transfer_operators(a); } catch (const error::empty_level &) { e1 = true; }
@@ -449,7 +475,7 @@ static void sub_lift() {
         if (!vf::selected("lift", idx)) continue;
         Rng r(vf::case_seed("lift", idx)); Gen g = gen_matrix(r, vf::thorough() && idx % 7 == 0 ? 40 : 16);
         int b = (int)r.range(2, 4); float eps = r.pick(std::vector<float>{0.0f, 0.08f, 0.08f, 0.25f, 0.5f});
-        Case c("lift", idx, g.A.desc(g.family).n("b", b).n("eps_strong", eps).n("threads", omp_get_max_threads()));
+        Case cs("lift", idx, g.A.desc(g.family).n("b", b).n("eps_strong", eps).n("threads", omp_get_max_threads())); Chk c(cs);
         AggrOut pl = check_plain(c, g.A, eps, "");
         check_lift_aggr(c, g.A, pl, eps, b, "");
         M a = to_amg(g.A); Csr<double> Ab = vf::kron(g.A, vf::identity_block(b), b); M ab = to_amg(Ab);
@@ -472,7 +498,7 @@ static void sub_block_aggr() {
         Rng r(vf::case_seed("block_aggr", idx)); Gen g = gen_matrix(r, 12); int b = (int)r.range(2, 4);
         Csr<double> Ab = vf::kron(g.A, vf::spd_block(b, r), b); bool punched = r.coin(); if (punched) Ab = vf::punch_blocks(Ab, r.uni(0.1, 0.6), r);
         float eps = r.pick(std::vector<float>{0.0f, 0.08f, 0.25f}); unsigned min_aggr = (unsigned)r.range(0, 2 * b);
-        Case c("block_aggr", idx, Ab.desc("G5-" + g.family).n("b", b).bl("incomplete_blocks", punched).n("eps_strong", eps).n("min_aggregate", min_aggr));
+        Case cs("block_aggr", idx, Ab.desc("G5-" + g.family).n("b", b).bl("incomplete_blocks", punched).n("eps_strong", eps).n("min_aggregate", min_aggr)); Chk c(cs);
         // reduced matrix by definition: entry (I,J) present iff the block stores something, value = max |a_ij|
         size_t np = g.A.n; std::vector<std::map<ptrdiff_t, double>> red(np);
         for (size_t i = 0; i < Ab.n; ++i) for (auto j = Ab.ptr[i]; j < Ab.ptr[i + 1]; ++j) { double &v = red[i / b][Ab.col[j] / b]; v = std::max(v, std::fabs(Ab.val[j])); }
@@ -508,7 +534,7 @@ static void sub_ptent_sa() {
         if (b > 1) { bool ident = r.coin(0.3); A = vf::kron(g.A, ident ? vf::identity_block(b) : vf::spd_block(b, r), b); if (!ident && r.coin(0.4)) { A = vf::punch_blocks(A, r.uni(0.05, 0.4), r); sym = false; } fam = "G5-" + fam; if (sym) sym = is_symmetric(A); }
         NullSpace ns = gen_nullspace(r, A.n, b, g.nx);
         SaCfg cfg; cfg.b = b; cfg.eps = r.pick(std::vector<float>{0.0f, 0.08f, 0.08f, 0.25f, 0.5f}); cfg.relax = r.pick(std::vector<float>{1.0f, 1.0f, 0.5f, 1.3f}); cfg.est = r.coin(0.4);
-        Case c("ptent_sa", idx, A.desc(fam).n("b", b).s("nullspace", ns.kind).n("cols", ns.cols).n("eps_strong", cfg.eps).n("relax", cfg.relax).bl("estimate_spectral_radius", cfg.est).bl("symmetric", sym).n("threads", omp_get_max_threads()));
+        Case cs("ptent_sa", idx, A.desc(fam).n("b", b).s("nullspace", ns.kind).n("cols", ns.cols).n("eps_strong", cfg.eps).n("relax", cfg.relax).bl("estimate_spectral_radius", cfg.est).bl("symmetric", sym).n("threads", omp_get_max_threads())); Chk c(cs);
         check_sa(c, A, cfg, ns, sym, "");
         if (b == 1) check_plain(c, A, cfg.eps, "");
         c.nontrivial();
@@ -528,7 +554,7 @@ static void sub_rowsum() {
             A = quantize_zero_rowsum(T); }
         require(is_symmetric(A), "rowsum generator symmetric");
         float eps = r.pick(std::vector<float>{0.1f, 0.25f, 0.25f, 0.5f}); bool trunc = r.coin(0.6); float et = r.pick(std::vector<float>{0.05f, 0.2f, 0.2f, 0.5f});
-        Case c("rowsum", idx, A.desc(g.family).bl("mixed_signs", mixed).n("rs_eps_strong", eps).bl("do_trunc", trunc).n("eps_trunc", et).n("threads", omp_get_max_threads()));
+        Case cs("rowsum", idx, A.desc(g.family).bl("mixed_signs", mixed).n("rs_eps_strong", eps).bl("do_trunc", trunc).n("eps_trunc", et).n("threads", omp_get_max_threads())); Chk c(cs);
         if (rs_admissible(A)) check_rs(c, A, eps, trunc, et, "");
         SaCfg cfg; cfg.eps = r.pick(std::vector<float>{0.0f, 0.08f, 0.25f}); cfg.relax = r.pick(std::vector<float>{1.0f, 0.6f}); cfg.est = r.coin(); NullSpace none;
         check_sa(c, A, cfg, none, true, "");
